@@ -657,10 +657,13 @@ def c15_paths(rep, d, inputs):
         v.append(("RAYON_NUM_THREADS=1 with -t 0", mk(os.path.join(base, "e1", "in.fa")), os.path.join(base, "e1", "out"), None, {"RAYON_NUM_THREADS": "1"}))
         v.append(("RAYON_NUM_THREADS=3 with -t 0", mk(os.path.join(base, "e3", "in.fa")), os.path.join(base, "e3", "out"), None, {"RAYON_NUM_THREADS": "3"}))
         v.append(("RAYON_NUM_THREADS=7 with -t 2", mk(os.path.join(base, "e7", "in.fa")), os.path.join(base, "e7", "out"), None, {"RAYON_NUM_THREADS": "7", "_t": "2"}))
+        v.append(("RAYON_NUM_THREADS=0 (rayon: choose automatically) with -t 0", mk(os.path.join(base, "e0", "in.fa")), os.path.join(base, "e0", "out"), None, {"RAYON_NUM_THREADS": "0"}))
+        v.append(("RAYON_NUM_THREADS empty with -t 0", mk(os.path.join(base, "ee", "in.fa")), os.path.join(base, "ee", "out"), None, {"RAYON_NUM_THREADS": ""}))
+        v.append(("RAYON_NUM_THREADS=many (not a number) with -t 0", mk(os.path.join(base, "ej", "in.fa")), os.path.join(base, "ej", "out"), None, {"RAYON_NUM_THREADS": "many"}))
         v.append(("input and output in the current directory, output name next to the input name", "in.fa", "in.fa.out", mk(os.path.join(base, "same", "in.fa")) and os.path.join(base, "same"), None))
         return v
 
-    jobs = [(name, i) for name in subs for i in range(10)]
+    jobs = [(name, i) for name in subs for i in range(13)]
 
     def do(job):
         name, vi = job
@@ -730,6 +733,83 @@ def c15_paths(rep, d, inputs):
     shutil.rmtree(base, ignore_errors=True)
     rep.count("c15.path_and_environment_runs", len(jobs) + 4)
     rep.sample("kmertools cov -i link.fa -o l/a/b/out/ (symlinked input, nested new output directory, trailing slash) == the run on plain absolute paths")
+
+
+def c_env_threads(tier, kinds):
+    """the default thread count (no set_threads / -t 0) follows rayon, whose environment variable RAYON_NUM_THREADS may
+    be unset, a number, 0 (= choose automatically), empty or not a number: the result never depends on it.
+    One process per (kind, environment, entry point); oracle = the reference model."""
+    rep = Rep()
+    d = fresh_dir("envin")
+    recs = lcg_records(9, 77, 20, 60, True) + [b"ACG", b""]
+    paths = write_inputs(d, "e", recs)
+    envs = [None, "0", "1", "3", "", "lots"]
+    jobs = [(kind, e, how) for kind in kinds for e in envs for how in ("lib", "cli")]
+
+    def do(job):
+        kind, e, how = job
+        wd = fresh_dir("env")
+        out = os.path.join(wd, "out")
+        env = {"KTMC_SCRATCH": fe.scratch_base()}
+        if e is not None:
+            env["RAYON_NUM_THREADS"] = e
+        k = 11
+        if how == "lib":
+            if kind == "ctr":
+                rc, so, err, to = run([fe.KTMC, "lib", "ctr", "in=" + paths["fa"], "out=" + out, "k=%d" % k, "threads=0"], env=env, timeout=60)
+            elif kind == "cov":
+                rc, so, err, to = run([fe.KTMC, "lib", "cov", "in=" + paths["fa"], "out=" + out, "k=%d" % k, "binsize=1", "bincount=4", "counts=1", "threads=0"], env=env, timeout=60)
+            else:
+                rc, so, err, to = run([fe.KTMC, "lib", "oligo", "in=" + paths["fa"], "out=" + out, "k=3", "writer=mmap", "threads=0"], env=env, timeout=60)
+        else:
+            cenv = {} if e is None else {"RAYON_NUM_THREADS": e}
+            if kind == "ctr":
+                rc, so, err, to = cli(["ctr", "-i", paths["fa"], "-o", out, "-k", str(k), "-t", "0"], env=cenv)
+            elif kind == "cov":
+                rc, so, err, to = cli(["cov", "-i", paths["fa"], "-o", out, "-k", str(k), "-s", "5", "-c", "5", "--counts", "-t", "0"], env=cenv)
+            else:
+                rc, so, err, to = cli(["comp", "oligo", "-i", paths["fa"], "-o", out, "-k", "3", "-t", "0"], env=cenv)
+        rep.ev(1, 1)
+        what = "%s %s with RAYON_NUM_THREADS %s and no explicit thread count" % ("library" if how == "lib" else "kmertools", kind, "unset" if e is None else repr(e))
+        a = {"kind": kind, "env": e, "how": how}
+        bad = None
+        if rc != 0 or to:
+            bad = "exit %s, stderr %r" % (rc, err[-200:])
+        elif kind == "ctr" or kind == "cov":
+            table = parse_counts(read(os.path.join(out, "kmers.counts")), False, k)
+            want = pm.counts(recs, k)
+            if table is None or table != want:
+                bad = "kmers.counts holds %s distinct k-mers, the model %d" % (None if table is None else len(table), len(want))
+            elif kind == "cov":
+                rows = lines_of(read(os.path.join(out, "kmers.vectors"))) or []
+                bs, bc = (1, 4) if how == "lib" else (5, 5)
+                if len(rows) != len(recs):
+                    bad = "%d rows for %d records" % (len(rows), len(recs))
+                else:
+                    for i, (row, r) in enumerate(zip(rows, recs)):
+                        h, t = pm.histogram(r, k, want, bs, bc)
+                        if [float(x) for x in row.split(b" ")] != [float(x) for x in h]:
+                            bad = "row %d = %r, model %r" % (i, row, h)
+                            break
+        else:
+            rows = lines_of(read(out)) or []
+            if len(rows) != len(recs):
+                bad = "%d rows for %d records" % (len(rows), len(recs))
+            else:
+                for i, (row, r) in enumerate(zip(rows, recs)):
+                    v, tt = pm.oligo(r, 3)
+                    toks = row.split(b" ")
+                    if len(toks) != len(v) or any(not pm.close(float(x), v[j], tt) for j, x in enumerate(toks)):
+                        bad = "row %d differs from the model" % i
+                        break
+        if bad:
+            rep.violation("default-thread-count-changes-the-result", 3, "%s: %s" % (what, bad), "c_env", a)
+        shutil.rmtree(wd, ignore_errors=True)
+
+    pmap(do, jobs)
+    rep.count("env.default_thread_runs", len(jobs))
+    rep.sample("RAYON_NUM_THREADS=0 kmertools ctr -k 11 -t 0: kmers.counts equals the model's table")
+    return rep.done()
 
 
 def m2s_canon(data):
@@ -902,8 +982,12 @@ def c16_check(variant, recs, t, wd, final_newline=True):
     args += ["-t", str(t)]
     if cwd:
         args = [os.path.relpath(a, wd) if a in (inp, out) else a for a in args]
-    rc, so, err, to = cli(args, stdin=stdin, cwd=cwd)
-    cmdline = "kmertools " + " ".join(args) + (" [run in the directory of the input]" if cwd else "") + (" on records %r" % (recs,) if len(recs) <= 12 else " on %d records %r..." % (len(recs), recs[:6]))
+    env = None
+    if t == 0:
+        # automatic thread count: what rayon's environment variable says, by content of the case
+        env = {"RAYON_NUM_THREADS": ["0", "1", "3"][len(data) % 3]}
+    rc, so, err, to = cli(args, stdin=stdin, cwd=cwd, env=env)
+    cmdline = ("RAYON_NUM_THREADS=%s " % env["RAYON_NUM_THREADS"] if env else "") + "kmertools " + " ".join(args) + (" [run in the directory of the input]" if cwd else "") + (" on records %r" % (recs,) if len(recs) <= 12 else " on %d records %r..." % (len(recs), recs[:6]))
     if to:
         return ("hang", "%s: no exit within %d s" % (cmdline, TIMEOUT))
     has_bad = any(pm.cls(b) is None for r in recs for b in r)
@@ -1015,6 +1099,8 @@ def c16(tier):
         for l in lists:
             for t in (1, 4):
                 cases.append((variant, l, t, True))
+            if len(l) <= 1 or tier == "thorough":
+                cases.append((variant, l, 0, True))
             # the same input without its final line feed (the last record then ends at end of file)
             if l and name in ("oligo", "oligo-c", "oligo-stdin", "cgr", "kcgr", "cov", "s2m-w9", "m2s-w0", "ctr"):
                 cases.append((variant, l, 2, False))
@@ -1222,8 +1308,15 @@ def c17(tier):
         for f in ("vec.txt", "s2m.txt", "m2s.txt", "kmers.counts", "kmers.vectors", "temp_kmers.part_0_chunk_0", "temp_kmers.part_1_chunk_7", "temp_kmers.part_40_chunk_0"):
             if gname == "ctr-cov" or not f.startswith(("kmers", "temp")):
                 open(os.path.join(init_garbage, f), "wb").write(b"123\t45\n" * 4000 if f.startswith(("kmers.c", "temp")) else b"0.5 0.5 garbage from an earlier, longer run\n" * 3000)
+        # a third initial state: the documented output files are symbolic links to (longer) files kept elsewhere
+        init_links = fresh_dir("st")
+        if gname != "ctr-cov":
+            os.makedirs(os.path.join(init_links, "store"))
+            for f in ("vec.txt", "s2m.txt", "m2s.txt"):
+                open(os.path.join(init_links, "store", f), "wb").write(b"0.5 0.5 an earlier, longer result kept in another directory\n" * 3000)
+                os.symlink(os.path.join("store", f), os.path.join(init_links, f))
         frontier = []
-        for loc, hist in ((init_empty, ["<empty>"]), (init_garbage, ["<garbage>"])):
+        for loc, hist in ((init_empty, ["<empty>"]), (init_garbage, ["<garbage>"])) + (((init_links, ["<outputs are symlinks to longer files>"]),) if gname != "ctr-cov" else ()):
             c = canon_dir(loc)
             states[c] = (loc, hist)
             frontier.append(c)
@@ -1240,7 +1333,7 @@ def c17(tier):
                 fn, results = runs[rname]
                 loc = fresh_dir("tr")
                 shutil.rmtree(loc)
-                shutil.copytree(src, loc)
+                shutil.copytree(src, loc, symlinks=True)
                 rc, so, err, to = fn(loc)
                 rep.ev(1, 1)
                 h2 = hist + [rname]
